@@ -159,16 +159,13 @@ structure Ext (s t : State) (r : Nat) : Prop where
   mono : ∀ q m, s.memos q = some m → ∃ m', t.memos q = some m' ∧ m.va ≤ m'.va ∧ m.ca ≤ m'.ca
   /-- a memo is either left alone or (re)verified in the current revision -/
   touched : ∀ q, t.memos q = s.memos q ∨ ∃ m', t.memos q = some m' ∧ m'.va = s.cur
-  /-- backdating: equal value and no loss of durability keep `changed_at` -/
-  bd : ∀ q m m', s.memos q = some m → t.memos q = some m' → m'.value = m.value → m.dur ≤ m'.dur →
-    m'.ca = m.ca
 
 theorem Ext.refl (s r) : Ext s s r :=
-  ⟨rfl, rfl, rfl, rfl, fun _ _ => rfl, fun _ _ h _ => h, fun _ m h => ⟨m, h, Nat.le_refl _, Nat.le_refl _⟩,
-   fun _ => Or.inl rfl, fun _ m m' h h' _ _ => by rw [h] at h'; cases h'; rfl⟩
+  ⟨rfl, rfl, rfl, rfl, rfl, fun _ _ => rfl, fun _ _ h _ => h, fun _ m h => ⟨m, h, Nat.le_refl _, Nat.le_refl _⟩,
+   fun _ => Or.inl rfl⟩
 
 theorem Ext.trans {s t u r} (h1 : Ext s t r) (h2 : Ext t u r) : Ext s u r := by
-  refine ⟨h2.cur.trans h1.cur, h2.lch.trans h1.lch, h2.inp.trans h1.inp, h2.wlog.trans h1.wlog, ?_, ?_, ?_, ?_, ?_⟩
+  refine ⟨h2.cur.trans h1.cur, h2.lch.trans h1.lch, h2.inp.trans h1.inp, h2.cells.trans h1.cells, h2.wlog.trans h1.wlog, ?_, ?_, ?_, ?_⟩
   · intro q hq; rw [h2.above q hq, h1.above q hq]
   · intro q m hm hv
     have := h1.stable q m hm hv
@@ -183,22 +180,16 @@ theorem Ext.trans {s t u r} (h1 : Ext s t r) (h2 : Ext t u r) : Ext s u r := by
       · exact Or.inl (e2.trans e1)
       · exact Or.inr ⟨m', by rw [e2]; exact hm', hv'⟩
     · exact Or.inr ⟨m', hm', by rw [hv', h1.cur]⟩
-  · intro q m m'' hm hm'' hv hd
-    rcases h1.touched q with e1 | ⟨m', hm', hv'⟩
-    · exact h2.bd q m m'' (by rw [e1]; exact hm) hm'' hv hd
-    · have := h2.stable q m' hm' (by rw [hv', h1.cur])
-      have e : m'' = m' := by rw [this] at hm''; exact (Option.some.inj hm'').symm
-      rw [e] at hv hd ⊢
-      exact h1.bd q m m' hm hm' hv hd
 
 theorem Ext.weaken {s t r r'} (h : Ext s t r) (hr : r ≤ r') : Ext s t r' :=
-  ⟨h.cur, h.lch, h.inp, h.wlog, fun q hq => h.above q (Nat.le_trans hr hq), h.stable, h.mono, h.touched, h.bd⟩
+  ⟨h.cur, h.lch, h.inp, h.cells, h.wlog, fun q hq => h.above q (Nat.le_trans hr hq), h.stable, h.mono, h.touched⟩
 
 theorem Ext.lc {s t r} (h : Ext s t r) (d : Nat) : lc t d = lc s d := by
   simp [SalsaVerif.Model.Core3.lc, h.cur, h.lch]
 
 theorem hot_ext {s t r d} (h : Ext s t r) (hd : hot s d) : hot t d := by
   cases d with
+  | cell c => trivial
   | inp i => trivial
   | qry q =>
     obtain ⟨m, hm, hv⟩ := hd
@@ -207,6 +198,7 @@ theorem hot_ext {s t r d} (h : Ext s t r) (hd : hot s d) : hot t d := by
 theorem depInfo_hot_ext {s t r d x} (h : Ext s t r) (hd : hot s d) (hi : depInfo s d = some x) :
     depInfo t d = some x := by
   cases d with
+  | cell c => simp [depInfo] at hi
   | inp i => simp only [depInfo] at *; rw [h.inp]; exact hi
   | qry q =>
     obtain ⟨m, hm, hv⟩ := hd
@@ -218,12 +210,15 @@ theorem depInfo_hot_ext {s t r d x} (h : Ext s t r) (hd : hot s d) (hi : depInfo
 @[simp] theorem setMemo_lch (s q m) : (setMemo s q m).lch = s.lch := rfl
 @[simp] theorem setMemo_inp (s q m) : (setMemo s q m).inp = s.inp := rfl
 @[simp] theorem setMemo_wlog (s q m) : (setMemo s q m).wlog = s.wlog := rfl
+@[simp] theorem setMemo_cells (s q m) : (setMemo s q m).cells = s.cells := rfl
+@[simp] theorem setMemo_lru (s q m) : (setMemo s q m).lru = s.lru := rfl
 @[simp] theorem setMemo_lc (s q m d) : lc (setMemo s q m) d = lc s d := rfl
 @[simp] theorem setMemo_same (s q m) : (setMemo s q m).memos q = some m := by simp [setMemo]
 theorem setMemo_other (s q m) {p} (h : p ≠ q) : (setMemo s q m).memos p = s.memos p := by simp [setMemo, h]
 
 theorem depInfo_setMemo_other (s q m) {d} (h : d ≠ .qry q) : depInfo (setMemo s q m) d = depInfo s d := by
   cases d with
+  | cell c => rfl
   | inp i => rfl
   | qry p =>
     have : p ≠ q := fun e => h (by rw [e])
@@ -231,6 +226,7 @@ theorem depInfo_setMemo_other (s q m) {d} (h : d ≠ .qry q) : depInfo (setMemo 
 
 theorem sokDep_setMemo_other (s q m) {d} (h : d ≠ .qry q) : sokDep (setMemo s q m) d ↔ sokDep s d := by
   cases d with
+  | cell c => simp [sokDep]
   | inp i => simp [sokDep]
   | qry p =>
     have : p ≠ q := fun e => h (by rw [e])
@@ -243,6 +239,8 @@ theorem sokDep_setMemo_other (s q m) {d} (h : d ≠ .qry q) : sokDep (setMemo s 
 @[simp] theorem emit_inp (s e) : (emit s e).inp = s.inp := rfl
 @[simp] theorem emit_memos (s e) : (emit s e).memos = s.memos := rfl
 @[simp] theorem emit_wlog (s e) : (emit s e).wlog = s.wlog := rfl
+@[simp] theorem emit_cells (s e) : (emit s e).cells = s.cells := rfl
+@[simp] theorem emit_lru (s e) : (emit s e).lru = s.lru := rfl
 @[simp] theorem emit_lc (s e d) : lc (emit s e) d = lc s d := rfl
 @[simp] theorem emit_trace (s e) : (emit s e).trace = s.trace ++ [e] := rfl
 @[simp] theorem setMemo_trace (s q m) : (setMemo s q m).trace = s.trace := rfl
@@ -253,7 +251,7 @@ theorem hot_emit (s e d) : hot (emit s e) d ↔ hot s d := by cases d <;> exact 
 theorem sokDep_emit (s e d) : sokDep (emit s e) d ↔ sokDep s d := by cases d <;> exact Iff.rfl
 
 theorem memoOk_emit {P s q m} (e : Ev) (ok : MemoOk P s q m) : MemoOk P (emit s e) q m :=
-  ⟨ok.ca_va, ok.va_cur, ok.va1, ok.deep_va, ok.dur3, ok.rep,
+  ⟨ok.ca_va, ok.va_cur, ok.va1, ok.deep_va, ok.dur3, ok.hasval, ok.rep, ok.g6, ok.cellobs, ok.hascell,
    fun o ho r hi => ok.i2 o ho r (by rw [← depInfo_emit s e]; exact hi),
    fun hs o ho => ⟨fun r hi => (ok.i3 hs o ho).1 r (by rw [← depInfo_emit s e]; exact hi),
                    (sokDep_emit s e _).mpr (ok.i3 hs o ho).2⟩,
@@ -263,11 +261,11 @@ theorem memoOk_emit {P s q m} (e : Ev) (ok : MemoOk P s q m) : MemoOk P (emit s 
    fun o ho r hi => ok.i10 o ho r (by rw [← depInfo_emit s e]; exact hi)⟩
 
 theorem inv_emit {P s} (e : Ev) (h : Inv P s) : Inv P (emit s e) :=
-  ⟨h.cur1, h.lc_le, h.lc_ge1, h.lc_anti, h.lc_never, h.inp_le, h.inp_ge1, h.wlog_lc,
+  ⟨h.cur1, h.lc_le, h.lc_ge1, h.lc_anti, h.lc_never, h.inp_le, h.inp_ge1, h.wlog_lc, h.bumps, h.lruempty,
    fun q m hm => memoOk_emit e (h.memo q m hm)⟩
 
 theorem Ext.emit {s t r} (h : Ext s t r) (e : Ev) : Ext s (Model.Core3.emit t e) r :=
-  ⟨h.cur, h.lch, h.inp, h.wlog, h.above, h.stable, h.mono, h.touched, h.bd⟩
+  ⟨h.cur, h.lch, h.inp, h.cells, h.wlog, h.above, h.stable, h.mono, h.touched⟩
 
 theorem ext_emit (s e r) : Ext s (emit s e) r := (Ext.refl s r).emit e
 
@@ -276,19 +274,23 @@ theorem SOK_setMemo (s q m' mp) : SOK (setMemo s q m') mp ↔ SOK s mp := Iff.rf
 theorem inv_setMemo {P s q m'} (hI : Inv P s) (hok : MemoOk P (setMemo s q m') q m')
     (hva : m'.va = s.cur)
     (hobs : ∀ p mp o, p ≠ q → s.memos p = some mp → o ∈ mp.obs → o.dep = .qry q →
-        (m'.ca ≤ mp.va → m'.value = o.val ∧ mp.dur ≤ m'.dur) ∧
+        (m'.ca ≤ mp.va → m'.gval = o.val ∧ mp.dur ≤ m'.dur) ∧
         (SOK s mp → m'.ca ≤ mp.va) ∧
-        (o.recd = false → m'.value = o.val ∧ 3 ≤ m'.dur) ∧
+        (o.recd = false → m'.gval = o.val ∧ 3 ≤ m'.dur) ∧
         (m'.ca ≤ mp.va ∨ ∃ w d, (w, d) ∈ s.wlog ∧ mp.dur ≤ d ∧ mp.va < w ∧ w ≤ m'.ca)) :
     Inv P (setMemo s q m') := by
-  refine ⟨hI.cur1, hI.lc_le, hI.lc_ge1, hI.lc_anti, hI.lc_never, hI.inp_le, hI.inp_ge1, hI.wlog_lc, ?_⟩
+  refine ⟨hI.cur1, hI.lc_le, hI.lc_ge1, hI.lc_anti, hI.lc_never, hI.inp_le, hI.inp_ge1, hI.wlog_lc,
+    hI.bumps, hI.lruempty, ?_⟩
   intro p mp hmp
   by_cases hpq : p = q
   · subst hpq
-    simp at hmp; subst hmp; exact hok
+    rw [setMemo_same] at hmp
+    have e : mp = m' := (Option.some.inj hmp).symm
+    rw [e]; exact hok
   · rw [setMemo_other s q m' hpq] at hmp
     have old := hI.memo p mp hmp
-    refine ⟨old.ca_va, old.va_cur, old.va1, old.deep_va, old.dur3, old.rep, ?_, ?_, old.i4, ?_, ?_, old.g4, ?_⟩
+    refine ⟨old.ca_va, old.va_cur, old.va1, old.deep_va, old.dur3, old.hasval, old.rep, old.g6,
+      old.cellobs, old.hascell, ?_, ?_, old.i4, ?_, ?_, old.g4, ?_⟩
     · -- i2
       intro o ho r hinfo hc
       by_cases hdq : o.dep = .qry q
@@ -346,15 +348,15 @@ theorem inv_setMemo {P s q m'} (hI : Inv P s) (hok : MemoOk P (setMemo s q m') q
 
 /-- observers are unaffected when value and stamp stay and the durability does not drop -/
 theorem hobs_same {P s q mo} (hI : Inv P s) (hmo : s.memos q = some mo) (m' : Memo)
-    (hv : m'.value = mo.value) (hc : m'.ca = mo.ca) (hd : mo.dur ≤ m'.dur) :
+    (hv : m'.gval = mo.gval) (hc : m'.ca = mo.ca) (hd : mo.dur ≤ m'.dur) :
     ∀ p mp o, p ≠ q → s.memos p = some mp → o ∈ mp.obs → o.dep = .qry q →
-        (m'.ca ≤ mp.va → m'.value = o.val ∧ mp.dur ≤ m'.dur) ∧
+        (m'.ca ≤ mp.va → m'.gval = o.val ∧ mp.dur ≤ m'.dur) ∧
         (SOK s mp → m'.ca ≤ mp.va) ∧
-        (o.recd = false → m'.value = o.val ∧ 3 ≤ m'.dur) ∧
+        (o.recd = false → m'.gval = o.val ∧ 3 ≤ m'.dur) ∧
         (m'.ca ≤ mp.va ∨ ∃ w d, (w, d) ∈ s.wlog ∧ mp.dur ≤ d ∧ mp.va < w ∧ w ≤ m'.ca) := by
   intro p mp o _ hmp ho hdq
   have ok := hI.memo p mp hmp
-  have hinfo : depInfo s o.dep = some ⟨mo.value, mo.ca, mo.dur⟩ := by rw [hdq]; simp [depInfo, hmo]
+  have hinfo : depInfo s o.dep = some ⟨mo.gval, mo.ca, mo.dur⟩ := by rw [hdq]; simp [depInfo, hmo]
   refine ⟨?_, ?_, ?_, ?_⟩
   · intro h
     rw [hc] at h
